@@ -56,3 +56,39 @@ fn d15_post_action_remove() {
     el.dispatch(Duration::ZERO, &mut ()).unwrap();
     assert_eq!(hooks.get(), h, "a removed source still receives lifecycle hooks");
 }
+
+/// the same through an event of the SECOND sub-source (sub-id 1): the entry the loop has to drop is the one of the
+/// registration token, whatever sub-token the event carried
+#[test]
+fn d15_post_action_remove_from_a_secondary_sub_source() {
+    struct Two { a: PingSource, b: PingSource, hooks: Rc<Cell<u32>> }
+    impl EventSource for Two {
+        type Event = ();
+        type Metadata = ();
+        type Ret = ();
+        type Error = Box<dyn std::error::Error + Sync + Send>;
+        const NEEDS_EXTRA_LIFECYCLE_EVENTS: bool = true;
+        fn process_events<F>(&mut self, r: Readiness, t: Token, mut cb: F) -> Result<PostAction, Self::Error> where F: FnMut((), &mut ()) {
+            let mut hit_b = false;
+            self.a.process_events(r, t, |_, _| cb((), &mut ()))?;
+            self.b.process_events(r, t, |_, _| hit_b = true)?;
+            Ok(if hit_b { PostAction::Remove } else { PostAction::Continue })
+        }
+        fn register(&mut self, p: &mut Poll, f: &mut TokenFactory) -> calloop::Result<()> { self.a.register(p, f)?; self.b.register(p, f) }
+        fn reregister(&mut self, p: &mut Poll, f: &mut TokenFactory) -> calloop::Result<()> { self.a.reregister(p, f)?; self.b.reregister(p, f) }
+        fn unregister(&mut self, p: &mut Poll) -> calloop::Result<()> { let _ = self.a.unregister(p); let _ = self.b.unregister(p); Err(calloop::Error::OtherError("unregister failed".into())) }
+        fn before_sleep(&mut self) -> calloop::Result<Option<(Readiness, Token)>> { self.hooks.set(self.hooks.get() + 1); Ok(None) }
+        fn before_handle_events(&mut self, _: EventIterator<'_>) {}
+    }
+    let mut el: EventLoop<()> = EventLoop::try_new().unwrap();
+    let hooks = Rc::new(Cell::new(0));
+    let (_pa, a) = make_ping().unwrap();
+    let (pb, b) = make_ping().unwrap();
+    el.handle().insert_source(Two { a, b, hooks: hooks.clone() }, |_, _, _| {}).unwrap();
+    pb.ping();
+    el.dispatch(Duration::from_millis(100), &mut ()).unwrap();
+    let h = hooks.get();
+    el.dispatch(Duration::ZERO, &mut ()).unwrap();
+    el.dispatch(Duration::ZERO, &mut ()).unwrap();
+    assert_eq!(hooks.get(), h, "a removed source still receives lifecycle hooks");
+}
